@@ -28,12 +28,12 @@ import (
 	"net/url"
 	"os"
 	"strings"
+	"time"
 	"unicode"
 
 	"github.com/caddyserver/certmagic"
 	"github.com/mholt/acmez/v3"
 	"github.com/mholt/acmez/v3/acme"
-	"github.com/miekg/dns"
 	"go.uber.org/zap"
 
 	"verifharness/pkg/doubles"
@@ -58,6 +58,14 @@ type c15Op struct {
 	C      int    `json:"c"`              // index into Chals
 	Name   string `json:"name,omitempty"` // tamper: identifier whose token file is hit
 	V      string `json:"v,omitempty"`    // tamper: delete | corrupt | empty
+	// clean: the embedded solver's CleanUp reports an error although it did its work (local/remote:
+	// the token file is deleted but the storage reports a failure, as when the acknowledgement of a
+	// networked delete is lost; mem: the wrapped solver's CleanUp fails). The challenge is no longer
+	// pending all the same: the state is "cleaned" and nothing may be answered.
+	Fault bool `json:"fault,omitempty"`
+	// present (local): the context of the call is cancelled as soon as it has returned (the order that
+	// made it is over — or was an on-demand order tied to a handshake); clean: it is cancelled already
+	Cancel bool `json:"cancel,omitempty"`
 	// ask: a request served by this process in the middle of the history (its answer is not
 	// recorded; what matters is that answering must not change what later requests get)
 	Q *c15Query `json:"q,omitempty"`
@@ -72,12 +80,16 @@ type c15Query struct {
 	Host      string   `json:"host,omitempty"`
 	SNI       string   `json:"sni,omitempty"`
 	Protos    []string `json:"protos,omitempty"`
+	// Via "listener": the request is sent over TCP to the HTTP challenge listener that the local
+	// solver opened (instead of calling the handler through httptest)
+	Via string `json:"via,omitempty"`
 }
 
 type c15In struct {
 	Chals []c15Chal `json:"chals"`
 	Ops   []c15Op   `json:"ops"`
 	Query c15Query  `json:"query"`
+	E2E   *c15E2E   `json:"e2e,omitempty"` // the case comes from a real order questioned at another node (c15_e2e.go)
 }
 
 func (c c15Chal) acme() acme.Challenge {
@@ -95,6 +107,9 @@ type c15Env struct {
 	appLeaf  []byte
 	stopAll  func()
 	loadFail bool
+	cleanFault bool // a Delete of a token file is applied but reports an error
+	own      c15OwnAnswers
+	honour   bool // the storage honours context cancellation during the current scenario
 	host     string
 }
 
@@ -122,6 +137,9 @@ func c15FreePort(host string) int {
 	panic("no free port on " + host)
 }
 
+// the CA directory URLs of the two configured issuers
+var c15CAs = []string{"https://ca-one.test/dir", "https://ca-two.test/acme/directory"}
+
 func c15NewEnv() (*c15Env, error) {
 	log.SetOutput(io.Discard) // the solvers' servers log handshake errors of probes
 	e := &c15Env{backend: doubles.NewMemBackend(), host: c15LoopbackHost()}
@@ -129,14 +147,18 @@ func c15NewEnv() (*c15Env, error) {
 		if e.loadFail && op.Kind == "Load" && strings.Contains(op.Key, "challenge_tokens") {
 			return errors.New("injected storage read failure")
 		}
+		if e.cleanFault && op.Kind == "Delete" && strings.Contains(op.Key, "challenge_tokens") {
+			e.backend.Remove(op.Key) // the delete is applied, its acknowledgement is lost
+			return errors.New("injected: delete applied, acknowledgement lost")
+		}
 		return nil
 	}
 	mk := func(inst string) (*certmagic.Config, []*certmagic.ACMEIssuer, *certmagic.Cache, certmagic.Storage) {
 		st := doubles.NilCtxStorage{S: e.backend.Handle(inst)}
 		cfg, cache := doubles.NewConfig(st, certmagic.Config{DefaultServerName: "app.example", FallbackServerName: "app.example"}, certmagic.CacheOptions{})
-		i0 := certmagic.NewACMEIssuer(cfg, certmagic.ACMEIssuer{CA: "https://ca-one.test/dir", TestCA: "https://staging.ca-one.test/dir", Email: "x@example.com", Agreed: true, Logger: zap.NewNop(),
+		i0 := certmagic.NewACMEIssuer(cfg, certmagic.ACMEIssuer{CA: c15CAs[0], TestCA: "https://staging.ca-one.test/dir", Email: "x@example.com", Agreed: true, Logger: zap.NewNop(),
 			ListenHost: e.host, AltHTTPPort: c15FreePort(e.host), AltTLSALPNPort: c15FreePort(e.host)})
-		i1 := certmagic.NewACMEIssuer(cfg, certmagic.ACMEIssuer{CA: "https://ca-two.test/acme/directory", TestCA: "https://ca-two.test/acme/directory", Email: "x@example.com", Agreed: true, Logger: zap.NewNop(),
+		i1 := certmagic.NewACMEIssuer(cfg, certmagic.ACMEIssuer{CA: c15CAs[1], TestCA: "https://ca-two.test/acme/directory", Email: "x@example.com", Agreed: true, Logger: zap.NewNop(),
 			ListenHost: e.host, AltHTTPPort: c15FreePort(e.host), AltTLSALPNPort: c15FreePort(e.host)})
 		cfg.Issuers = []certmagic.Issuer{i0, i1}
 		return cfg, []*certmagic.ACMEIssuer{i0, i1}, cache, st
@@ -144,6 +166,8 @@ func c15NewEnv() (*c15Env, error) {
 	_, issA, cacheA, stA := mk("A")
 	cfgB, issB, cacheB, _ := mk("B")
 	e.cfgB, e.issA, e.issB, e.handleA = cfgB, issA, issB, stA
+	e.own.issuerKey(issB[0], c15CAs[0])
+	e.own.issuerKey(issB[1], c15CAs[1])
 	e.issDis = certmagic.NewACMEIssuer(cfgB, certmagic.ACMEIssuer{CA: "https://ca-one.test/dir", DisableHTTPChallenge: true, Logger: zap.NewNop()})
 	ca := doubles.NewCA("C15 application CA")
 	chain, leaf, key, err := ca.Leaf(doubles.LeafOpts{Names: []string{"app.example"}})
@@ -162,6 +186,9 @@ func c15NewEnv() (*c15Env, error) {
 func (e *c15Env) solverFor(op c15Op, ch c15Chal) (acmez.Solver, error) {
 	switch op.Place {
 	case "mem":
+		if op.Kind == "clean" && op.Fault {
+			return certmagic.VerifSolverWrapper(&doubles.NoopSolver{FailCleanUp: errors.New("injected clean-up failure")}), nil
+		}
 		return certmagic.VerifSolverWrapper(&doubles.NoopSolver{}), nil
 	case "local":
 		m, err := certmagic.VerifChallengeSolvers(e.issB[op.J], op.TestCA)
@@ -212,8 +239,24 @@ func (e *c15Env) apply(in *c15In, op c15Op) error {
 		if err != nil {
 			return err
 		}
+		if op.Cancel {
+			cctx, cancel := context.WithCancel(ctx)
+			if op.Kind == "clean" {
+				cancel()
+			} else {
+				defer cancel()
+			}
+			ctx = cctx
+		}
 		if op.Kind == "present" {
 			return s.Present(ctx, ch.acme())
+		}
+		if op.Fault {
+			// acmez only logs a clean-up error; so do we (whether the error surfaces is not the point)
+			e.cleanFault = true
+			_ = s.CleanUp(ctx, ch.acme())
+			e.cleanFault = false
+			return nil
 		}
 		return s.CleanUp(ctx, ch.acme())
 	case "ask":
@@ -223,7 +266,9 @@ func (e *c15Env) apply(in *c15In, op c15Op) error {
 		e.query(in, *op.Q) // unparsable targets are simply not delivered
 		return nil
 	case "tamper":
-		key := certmagic.VerifChallengeTokensKey(e.issB[op.J].IssuerKey(), op.Name)
+		// the file is located independently of the code under test (c15_indep.go)
+		key := c15TokensKey(c15IssuerKeyOf(c15CAs[op.J]), op.Name)
+		e.own.tokensKey(c15IssuerKeyOf(c15CAs[op.J]), op.Name)
 		switch op.V {
 		case "delete":
 			e.backend.Remove(key)
@@ -292,6 +337,29 @@ func (e *c15Env) query(in *c15In, q c15Query) (c15Obs, *url.URL, error) {
 		u, err := url.ParseRequestURI(q.Target)
 		if err != nil {
 			return o, nil, err
+		}
+		if q.Via == "listener" {
+			// over the network, through the listener of the local issuer's HTTP solver (its wrapped
+			// handler is an empty ServeMux: "404 page not found")
+			rq, err := http.NewRequest(q.Method, fmt.Sprintf("http://%s:%d%s", e.host, e.issB[0].AltHTTPPort, q.Target), nil)
+			if err != nil {
+				return o, nil, err
+			}
+			rq.Host = q.Host
+			resp, err := (&http.Client{Timeout: 10 * time.Second, Transport: &http.Transport{DisableKeepAlives: true, Proxy: nil}}).Do(rq)
+			if err != nil {
+				o.Handled, o.Body = true, "!network error: "+err.Error() // agrees with nothing
+				return o, u, nil
+			}
+			b, _ := io.ReadAll(io.LimitReader(resp.Body, 4096))
+			resp.Body.Close()
+			o.Status, o.Body = resp.StatusCode, string(b)
+			o.WrappedRan = resp.StatusCode == 404 && strings.HasPrefix(o.Body, "404 page not found")
+			o.Handled = !o.WrappedRan
+			if o.Handled && (resp.StatusCode != 200 || !strings.HasPrefix(resp.Header.Get("Content-Type"), "text/plain")) {
+				o.Body = fmt.Sprintf("!status=%d ct=%s:", resp.StatusCode, resp.Header.Get("Content-Type")) + o.Body
+			}
+			return o, u, nil
 		}
 		ran := false
 		wrapped := http.HandlerFunc(func(w http.ResponseWriter, r *http.Request) { ran = true; w.Write([]byte("APP")) })
@@ -363,12 +431,18 @@ func (e *c15Env) query(in *c15In, q c15Query) (c15Obs, *url.URL, error) {
 	return o, nil, fmt.Errorf("bad query kind %q", q.Kind)
 }
 
-func c15RevAddr(c c15Chal) *string {
-	r, err := dns.ReverseAddr(c.Ident)
-	if err != nil {
-		return nil
+// c15EncIP sends the identifier's address bytes (nil: not an IP literal); the model builds the
+// reverse-mapping name itself (Challenge.Model.rev_name).
+func c15EncIP(e *emit.Enc, ident string) {
+	b := c15IPBytes(ident)
+	if b == nil {
+		e.Bool(false)
+		return
 	}
-	return &r
+	e.Bool(true).Len(len(b))
+	for _, x := range b {
+		e.Z(int64(x))
+	}
 }
 
 func c15EncChal(e *emit.Enc, c c15Chal) {
@@ -377,7 +451,8 @@ func c15EncChal(e *emit.Enc, c c15Chal) {
 	if !ok {
 		ty = 3
 	}
-	e.Int(ty).Str(c.Token).Str(c.KeyAuth).Bool(c.IDType == "ip").Str(c.Ident).OptStr(c15RevAddr(c))
+	e.Int(ty).Str(c.Token).Str(c.KeyAuth).Bool(c.IDType == "ip").Str(c.Ident)
+	c15EncIP(e, c.Ident)
 }
 
 // c15Tables: ToLower / IsSpace of the non-ASCII code points in strs, and the fold-equal pairs
@@ -425,6 +500,85 @@ func c15Tables(e *emit.Enc, strs []string, reqStrs []string, chalStrs []string) 
 	}
 }
 
+// c15Wire encodes one case: tables, issuer keys, history, observed memory / token keys, the
+// request and what it got.
+func c15Wire(own *c15OwnAnswers, issKeys []string, chals []c15Chal, ops []c15Op, memObs [][2]any, storeObs []string, q c15Query, u *url.URL, obs c15Obs) *emit.Enc {
+	upath := ""
+	if u != nil {
+		upath = u.Path
+	}
+	enc := &emit.Enc{}
+	strs := append([]string{}, issKeys...)
+	var chalStrs []string
+	for _, c := range chals {
+		k := c15KeyOf(c.acme())
+		own.chal(c.acme())
+		strs = append(strs, c.Ident, k)
+		chalStrs = append(chalStrs, c.Ident, k)
+	}
+	for _, op := range ops {
+		strs = append(strs, op.Name)
+	}
+	var reqStrs []string
+	if q.Kind == "http" {
+		reqStrs = []string{q.Host}
+	} else {
+		reqStrs = []string{q.SNI}
+	}
+	strs = append(strs, reqStrs...)
+	c15Tables(enc, strs, reqStrs, chalStrs)
+	enc.StrList(issKeys)
+	enc.Len(len(ops))
+	for _, op := range ops {
+		pl := map[string]int{"local": 0, "remote": 1, "mem": 2}[op.Place]
+		switch op.Kind {
+		case "present":
+			enc.Int(0).Int(pl).Int(op.J)
+			c15EncChal(enc, chals[op.C])
+		case "clean":
+			enc.Int(1).Int(pl).Int(op.J)
+			c15EncChal(enc, chals[op.C])
+		case "tamper":
+			enc.Int(2).Int(op.J).Str(op.Name).Int(map[string]int{"delete": 0, "corrupt": 1, "empty": 2}[op.V])
+		case "ask":
+			enc.Int(3)
+		}
+	}
+	enc.Len(len(memObs))
+	for _, m := range memObs {
+		enc.Str(m[0].(string)).Bool(m[1].(bool))
+	}
+	enc.StrList(storeObs)
+	if q.Kind == "http" {
+		enc.Int(0).Bool(q.Disabled).Bool(q.LoadFault).Str(q.Method).Str(upath).Str(q.Host)
+		if obs.Handled {
+			b := obs.Body
+			enc.OptStr(&b)
+		} else {
+			enc.OptStr(nil)
+		}
+	} else {
+		enc.Int(1).Bool(q.LoadFault).Str(q.SNI).StrList(q.Protos)
+		switch obs.Class {
+		case "challenge-cert":
+			enc.Int(0)
+			if obs.KeyAuthOf >= 0 {
+				enc.Bool(true)
+				c15EncChal(enc, chals[obs.KeyAuthOf])
+			} else {
+				enc.Bool(false)
+			}
+		case "challenge-error":
+			enc.Int(1).Bool(false)
+		case "normal":
+			enc.Int(2).Bool(false)
+		default:
+			enc.Int(9).Bool(false)
+		}
+	}
+	return enc
+}
+
 type c15Runner struct {
 	env *c15Env
 	w   *emit.Writer
@@ -434,6 +588,12 @@ type c15Runner struct {
 func (r *c15Runner) runScenario(chals []c15Chal, ops []c15Op, queries []c15Query, descs []map[string]any) error {
 	e := r.env
 	in0 := &c15In{Chals: chals, Ops: ops}
+	// a history with cancelled contexts runs on a storage that honours cancellation
+	e.backend.HonourCtx = false
+	for _, op := range ops {
+		e.backend.HonourCtx = e.backend.HonourCtx || op.Cancel
+	}
+	defer func() { e.backend.HonourCtx = false }()
 	// what an earlier scenario left behind (only if a clean-up did not clean) is not this
 	// scenario's state: identifiers are unique per scenario, so it cannot be found by its requests
 	preMem := map[string]bool{}
@@ -452,7 +612,7 @@ func (r *c15Runner) runScenario(chals []c15Chal, ops []c15Op, queries []c15Query
 		}
 	}
 	storeObs := e.tokenKeys()
-	issKeys := []string{e.issB[0].IssuerKey(), e.issB[1].IssuerKey()}
+	issKeys := []string{c15IssuerKeyOf(c15CAs[0]), c15IssuerKeyOf(c15CAs[1])}
 	for qi, q := range queries {
 		in := c15In{Chals: chals, Ops: ops, Query: q}
 		obs, u, err := e.query(&in, q)
@@ -463,74 +623,11 @@ func (r *c15Runner) runScenario(chals []c15Chal, ops []c15Op, queries []c15Query
 			obs.MemKeys = append(obs.MemKeys, m.Key)
 		}
 		obs.StoreKeys = storeObs
-		enc := &emit.Enc{}
-		strs := append([]string{}, issKeys...)
-		var chalStrs []string
-		for _, c := range chals {
-			k := certmagic.VerifChallengeKey(c.acme())
-			strs = append(strs, c.Ident, k)
-			chalStrs = append(chalStrs, c.Ident, k)
-		}
-		for _, op := range ops {
-			strs = append(strs, op.Name)
-		}
-		var reqStrs []string
-		if q.Kind == "http" {
-			reqStrs = []string{q.Host}
-		} else {
-			reqStrs = []string{q.SNI}
-		}
-		strs = append(strs, reqStrs...)
-		c15Tables(enc, strs, reqStrs, chalStrs)
-		enc.StrList(issKeys)
-		enc.Len(len(ops))
-		for _, op := range ops {
-			pl := map[string]int{"local": 0, "remote": 1, "mem": 2}[op.Place]
-			switch op.Kind {
-			case "present":
-				enc.Int(0).Int(pl).Int(op.J)
-				c15EncChal(enc, chals[op.C])
-			case "clean":
-				enc.Int(1).Int(pl).Int(op.J)
-				c15EncChal(enc, chals[op.C])
-			case "tamper":
-				enc.Int(2).Int(op.J).Str(op.Name).Int(map[string]int{"delete": 0, "corrupt": 1, "empty": 2}[op.V])
-			case "ask":
-				enc.Int(3)
-			}
-		}
-		enc.Len(len(memObs))
+		memKH := make([][2]any, 0, len(memObs))
 		for _, m := range memObs {
-			enc.Str(m.Key).Bool(m.HasData)
+			memKH = append(memKH, [2]any{m.Key, m.HasData})
 		}
-		enc.StrList(storeObs)
-		if q.Kind == "http" {
-			enc.Int(0).Bool(q.Disabled).Bool(q.LoadFault).Str(q.Method).Str(u.Path).Str(q.Host)
-			if obs.Handled {
-				b := obs.Body
-				enc.OptStr(&b)
-			} else {
-				enc.OptStr(nil)
-			}
-		} else {
-			enc.Int(1).Bool(q.LoadFault).Str(q.SNI).StrList(q.Protos)
-			switch obs.Class {
-			case "challenge-cert":
-				enc.Int(0)
-				if obs.KeyAuthOf >= 0 {
-					enc.Bool(true)
-					c15EncChal(enc, chals[obs.KeyAuthOf])
-				} else {
-					enc.Bool(false)
-				}
-			case "challenge-error":
-				enc.Int(1).Bool(false)
-			case "normal":
-				enc.Int(2).Bool(false)
-			default:
-				enc.Int(9).Bool(false)
-			}
-		}
+		enc := c15Wire(&e.own, issKeys, chals, ops, memKH, storeObs, q, u, obs)
 		desc := map[string]any{}
 		for k, v := range descs[qi] {
 			desc[k] = v
@@ -659,7 +756,7 @@ func c15QueriesFor(r *rand.Rand, chals []c15Chal, ci int, state string, thorough
 	}
 	hv, pv := c15HostVariants(c.Ident), c15PathVariants(c.Token, other)
 	// the challenge's memory / storage key as Host: found by the lookup, refused by the Host check
-	hv = append(hv, c15Variant{"chal-key", certmagic.VerifChallengeKey(c.acme())}, c15Variant{"chal-key-port", certmagic.VerifChallengeKey(c.acme()) + ":80"})
+	hv = append(hv, c15Variant{"chal-key", c15KeyOf(c.acme())}, c15Variant{"chal-key-port", c15KeyOf(c.acme()) + ":80"})
 	exactPath := pv[0].val
 	hostExact := c.Ident
 	if idk == "ipv6" {
@@ -687,7 +784,7 @@ func c15QueriesFor(r *rand.Rand, chals []c15Chal, ci int, state string, thorough
 		}
 		add(c15Query{Kind: "http", Method: m, Target: p.val, Host: h.val, LoadFault: r.Intn(15) == 0}, map[string]any{"host": h.name, "path": p.name, "method": m})
 	}
-	key := certmagic.VerifChallengeKey(c.acme())
+	key := c15KeyOf(c.acme())
 	sv := c15SNIVariants(key, c.Ident)
 	for _, s := range sv {
 		add(c15Query{Kind: "hello", SNI: s.val, Protos: []string{"acme-tls/1"}}, map[string]any{"sni": s.name, "protos": "acme-only"})
@@ -710,7 +807,7 @@ func c15Asks(c c15Chal) []c15Op {
 		host = "[" + c.Ident + "]"
 	}
 	return []c15Op{
-		{Kind: "ask", Q: &c15Query{Kind: "hello", SNI: certmagic.VerifChallengeKey(c.acme()), Protos: []string{"acme-tls/1"}}},
+		{Kind: "ask", Q: &c15Query{Kind: "hello", SNI: c15KeyOf(c.acme()), Protos: []string{"acme-tls/1"}}},
 		{Kind: "ask", Q: &c15Query{Kind: "http", Method: "GET", Target: c15Base + "/" + c.Token, Host: host}},
 	}
 }
@@ -737,6 +834,7 @@ func runC15(tier string, seed int64, outdir string, replay string) error {
 		return err
 	}
 	defer env.stopAll()
+	defer func() { w.Meta.Oracles = append(w.Meta.Oracles, env.own.check()) }()
 	run := &c15Runner{env: env, w: w}
 	r := rand.New(rand.NewSource(seed))
 	thorough := tier == "thorough"
@@ -799,6 +897,14 @@ func runC15(tier string, seed int64, outdir string, replay string) error {
 		for k, v := range rc.Desc {
 			d[k] = v
 		}
+		if in.E2E != nil {
+			x, err := c15NewE2E(w, &env.own, env.host)
+			if err != nil {
+				return err
+			}
+			defer x.close()
+			return x.order(*in.E2E)
+		}
 		return run.runScenario(in.Chals, in.Ops, []c15Query{in.Query}, []map[string]any{d})
 	}
 
@@ -817,6 +923,7 @@ func runC15(tier string, seed int64, outdir string, replay string) error {
 	P := func(place string, j, c int) c15Op { return c15Op{Kind: "present", Place: place, J: j, C: c} }
 	C := func(place string, j, c int) c15Op { return c15Op{Kind: "clean", Place: place, J: j, C: c} }
 	A := func(c int) c15Op { return c15Op{Kind: "ask", C: c} } // this process answers c's validation requests
+	CF := func(place string, j, c int) c15Op { return c15Op{Kind: "clean", Place: place, J: j, C: c, Fault: true} }
 	// ---- corpus: witnesses of the fixed findings and the four states of the property text
 	for _, id := range idents {
 		for _, typ := range []string{"http-01", "tls-alpn-01"} {
@@ -837,11 +944,18 @@ func runC15(tier string, seed int64, outdir string, replay string) error {
 			c1 := c15NewChal(r, typ, id)
 			co := c15NewChal(r, map[string]string{"http-01": "tls-alpn-01", "tls-alpn-01": "http-01"}[typ], id)
 			scens = append(scens,
+				// asked before anybody presented (nothing to find), then presented elsewhere: found now
+				scen{"asked-then-remote", []c15Chal{c0}, []c15Op{A(0), P("remote", 0, 0)}, []string{"remote"}, ""},
+				scen{"asked-then-local", []c15Chal{c0}, []c15Op{A(0), P("local", 1, 0)}, []string{"local"}, ""},
 				scen{"remote-asked", []c15Chal{c0}, []c15Op{P("remote", 0, 0), A(0)}, []string{"remote"}, ""},
 				scen{"remote-asked-cleaned", []c15Chal{c0}, []c15Op{P("remote", 0, 0), A(0), C("remote", 0, 0)}, []string{"cleaned"}, ""},
 				scen{"remote-asked-renewed", []c15Chal{c0, c1}, []c15Op{P("remote", 0, 0), A(0), C("remote", 0, 0), P("remote", 0, 1)}, []string{"cleaned", "remote"}, ""},
 				scen{"remote-asked-renewed-other-type", []c15Chal{c0, co}, []c15Op{P("remote", 1, 0), A(0), C("remote", 1, 0), P("remote", 0, 1), A(1)}, []string{"cleaned", "remote"}, ""},
 				scen{"local-asked-cleaned", []c15Chal{c0}, []c15Op{P("local", 0, 0), A(0), C("local", 0, 0)}, []string{"cleaned"}, ""},
+				// the embedded clean-up reports an error: the challenge is over all the same
+				scen{"local-cleaned-faulty", []c15Chal{c0}, []c15Op{P("local", 0, 0), CF("local", 0, 0)}, []string{"cleaned"}, ""},
+				scen{"remote-cleaned-faulty", []c15Chal{c0}, []c15Op{P("remote", 1, 0), CF("remote", 1, 0)}, []string{"cleaned"}, ""},
+				scen{"local-cleaned-faulty-renewed-remotely", []c15Chal{c0, c1}, []c15Op{P("local", 0, 0), A(0), CF("local", 0, 0), P("remote", 0, 1)}, []string{"cleaned", "remote"}, ""},
 			)
 		}
 	}
@@ -852,6 +966,7 @@ func runC15(tier string, seed int64, outdir string, replay string) error {
 		scens = append(scens,
 			scen{"mem-only", []c15Chal{d}, []c15Op{P("mem", 0, 0)}, []string{"mem"}, ""},
 			scen{"mem-only-cleaned", []c15Chal{d}, []c15Op{P("mem", 0, 0), C("mem", 0, 0)}, []string{"cleaned"}, ""},
+			scen{"mem-only-cleaned-faulty", []c15Chal{d}, []c15Op{P("mem", 0, 0), CF("mem", 0, 0)}, []string{"cleaned"}, ""},
 			scen{"two", []c15Chal{a, b}, []c15Op{P("local", 0, 0), P("remote", 1, 1)}, []string{"local", "remote"}, ""},
 			scen{"two-one-cleaned", []c15Chal{a, b, ip}, []c15Op{P("local", 0, 0), P("remote", 1, 1), P("remote", 0, 2), C("local", 0, 0)}, []string{"cleaned", "remote", "remote"}, ""},
 			scen{"corrupt", []c15Chal{a}, []c15Op{P("remote", 0, 0), {Kind: "tamper", J: 0, Name: "a.example", V: "corrupt"}}, []string{"tampered"}, ""},
@@ -860,6 +975,25 @@ func runC15(tier string, seed int64, outdir string, replay string) error {
 			scen{"shadowed", []c15Chal{a}, []c15Op{P("remote", 1, 0), {Kind: "tamper", J: 0, Name: "a.example", V: "corrupt"}}, []string{"tampered"}, ""},
 			scen{"local-store-removed", []c15Chal{b}, []c15Op{P("local", 0, 0), {Kind: "tamper", J: 0, Name: "b.example", V: "delete"}}, []string{"tampered"}, ""},
 		)
+	}
+	// ---- requests that arrive at the solver's OWN listener. The listener is shared by the orders of
+	// this process; the order that happened to open it is over (its context cancelled), another local
+	// order keeps it open, and a challenge of ANOTHER instance is validated through it.
+	type viaScen struct {
+		chals   []c15Chal
+		ops     []c15Op
+		queries []c15Query
+		descs   []map[string]any
+	}
+	var viaScens []viaScen
+	for round := 0; round < 2; round++ {
+		c0, c1, c2 := c15NewChal(r, "http-01", "opener.example"), c15NewChal(r, "http-01", "keeper.example"), c15NewChal(r, "http-01", "elsewhere.example")
+		vs := viaScen{chals: []c15Chal{c0, c1, c2}}
+		vs.ops = []c15Op{{Kind: "present", Place: "local", J: 0, C: 0, Cancel: round == 0}, P("local", 0, 1), P("remote", 0, 2)}
+		if round == 0 {
+			vs.ops = []c15Op{{Kind: "present", Place: "local", J: 0, C: 0, Cancel: true}, P("local", 0, 1), {Kind: "clean", Place: "local", J: 0, C: 0, Cancel: true}, P("remote", 0, 2)}
+		}
+		viaScens = append(viaScens, vs)
 	}
 	// ---- random histories
 	nRand := 14
@@ -902,6 +1036,7 @@ func runC15(tier string, seed int64, outdir string, replay string) error {
 			default:
 				cl := placeOf[k]
 				cl.Kind = "clean"
+				cl.Fault = r.Intn(3) == 0
 				ops, state[k] = append(ops, cl), "cleaned"
 			}
 		}
@@ -956,5 +1091,49 @@ func runC15(tier string, seed int64, outdir string, replay string) error {
 		}
 		w.Hist("scenario=" + s.name)
 	}
+	for n, vs := range viaScens {
+		ren := map[string]string{}
+		for i := range vs.chals {
+			ren[vs.chals[i].Ident] = c15Uniq(vs.chals[i].Ident, 5000+n*4+i)
+			vs.chals[i].Ident = ren[vs.chals[i].Ident]
+		}
+		states := []string{"cleaned", "local", "remote"}
+		if n == 1 {
+			states[0] = "local"
+		}
+		for ci, c := range vs.chals {
+			for _, hv := range []c15Variant{{"exact", c.Ident}, {"port80", c.Ident + ":80"}, {"other", "other.example"}, {"swapcase", c15SwapCase(c.Ident)}} {
+				for _, pv := range []c15Variant{{"exact", c15Base + "/" + c.Token}, {"longer", c15Base + "/" + c.Token + "x"}} {
+					vs.queries = append(vs.queries, c15Query{Kind: "http", Method: "GET", Target: pv.val, Host: hv.val, Via: "listener"})
+					vs.descs = append(vs.descs, map[string]any{"scenario": "via-solver-listener", "class": "listener-base-context", "targets": states[ci], "ident_kind": "dns", "chal_type": c.Type,
+						"query": "http", "via": "listener", "host": hv.name, "path": pv.name, "method": "GET"})
+				}
+			}
+		}
+		if err := run.runScenario(vs.chals, vs.ops, vs.queries, vs.descs); err != nil {
+			return fmt.Errorf("scenario via-solver-listener: %v", err)
+		}
+		w.Hist("scenario=via-solver-listener")
+	}
+	// ---- end-to-end: real orders on this node, validation requests at another node (another
+	// process) sharing the storage
+	x, err := c15NewE2E(w, &env.own, env.host)
+	if err != nil {
+		return err
+	}
+	defer x.close()
+	e2e := []c15E2E{{"http-01", "a.example"}, {"tls-alpn-01", "a.example"}, {"tls-alpn-01", "192.0.2.7"}, {"http-01", "2001:db8::7"}}
+	if thorough {
+		e2e = append(e2e, c15E2E{"http-01", "192.0.2.7"}, c15E2E{"tls-alpn-01", "2001:db8::7"}, c15E2E{"http-01", "b-2.sub.example"}, c15E2E{"tls-alpn-01", "kiosk.example"})
+	}
+	for _, sc := range e2e {
+		if err := x.order(sc); err != nil {
+			return err
+		}
+	}
+	w.Meta.Oracles = append(w.Meta.Oracles, emit.OracleCheck{
+		Name:   fmt.Sprintf("end-to-end: %d real orders (ACMEIssuer.Issue against the mock CA) whose validation requests were answered by another node (second process on the same file storage); %d requests sent to that node", len(e2e), x.n),
+		OK:     len(x.bad) == 0,
+		Detail: strings.Join(x.bad, "; ")})
 	return nil
 }
